@@ -89,7 +89,7 @@ def run_history(world, spec, hist, store_kind, oracles, sigtab=None, opts=None, 
                     if real.status == "ok":
                         if real.value != ref.value:
                             probs.append(("C01", f"C01|stale|{spec['key']}", _what(spec, hist, si, f"dds returned {real.value!r}, plain execution {ref.value!r}")))
-                    elif real.status == "dds" and real.code in REFUSAL_CODES and not real.log:
+                    elif real.status == "dds" and (real.code in REFUSAL_CODES or real.code in spec.get("may_refuse", ())) and not real.log:
                         pass  # documented refusal before any body ran
                     else:
                         probs.append(("C01", f"C01|raises|{real.exc}{'[' + real.code + ']' if real.code else ''}|{spec['key']}",
